@@ -89,6 +89,12 @@ def build(desc):
         e = tc.edges.num_rows
         tc.indexes = tskit.TableCollectionIndexes(
             edge_insertion_order=np.arange(e, dtype=np.int32), edge_removal_order=np.arange(e, dtype=np.int32)[::-1].copy())
+        # an index that has gone stale because the number of edge rows changed afterwards: has_index() is
+        # False although the index buffers are still allocated; nothing of it may reach a file or a dict
+        if desc["index"] == "stale+":
+            tc.edges.add_row(0.0, 1.0, 0, 0)
+        elif desc["index"] == "stale-" and e:
+            tc.edges.truncate(e - 1)
     return tc
 
 
@@ -472,6 +478,10 @@ def all_descs(tier):
         for rows in row_choices(tname, 2):
             for top in tops:
                 yield {"rows": {tname: rows}, "top": top, "index": tname == "edges" and top in ("plain", "full")}
+                if tname == "edges" and top in ("plain", "full"):
+                    yield {"rows": {tname: rows}, "top": top, "index": "stale+"}
+                    if rows:
+                        yield {"rows": {tname: rows}, "top": top, "index": "stale-"}
     maxr = 1 if tier == "quick" else 2
     for t1, t2 in itertools.combinations(TNAMES, 2):
         for r1 in row_choices(t1, maxr):
